@@ -37,3 +37,13 @@ Proof. vm_compute. repeat split; reflexivity. Qed.
 Lemma refute_D : only 3 witness_D = true /\ zix_normal witness_D = [DOT; DOT; SEP] /\
   peqb (zix_normal witness_D) (std_normal witness_D) = false /\ is_normal_form (zix_normal witness_D) = false.
 Proof. vm_compute. repeat split; reflexivity. Qed.
+
+(* idempotence fails outside the proved class: "//./" -> "/./" -> "/" (class A) *)
+Definition witness_idem : list Z := [SEP; SEP; DOT; SEP].
+Lemma refute_idem : zix_normal witness_idem = [SEP; DOT; SEP] /\ zix_normal (zix_normal witness_idem) = [SEP] /\
+  class_A witness_idem = true.
+Proof. vm_compute. repeat split; reflexivity. Qed.
+
+(* an already normal path is changed: "a../" is a normal form, zix returns "a.." (class C) *)
+Lemma refute_fixed : is_normal_form witness_C = true /\ peqb (zix_normal witness_C) witness_C = false.
+Proof. vm_compute. split; reflexivity. Qed.
